@@ -306,12 +306,38 @@ def run(ctx, col: Collector):
                     for kw in n.keywords:
                         if kw.arg == 'mode' and isinstance(kw.value, ast.Constant):
                             mode = kw.value.value
+                    nl = next((kw.value for kw in n.keywords if kw.arg == 'newline'), None)
                     if mode and 'b' in str(mode):
-                        raise Unrecognised('binary open on a source route', n)
+                        col.bad('C12-utf8', f'{fi.qualname}:{norm(n)}', f'{fi.qualname} opens the source file in binary mode: the bytes are decoded without the universal-newline '
+                                f'translation a text-mode open does, so a file with CRLF line ends gives a different text by path than as an open text stream', node=n, file=fi.file)
+                        continue
+                    if nl is not None and not (isinstance(nl, ast.Constant) and nl.value is None):
+                        col.bad('C12-utf8', f'{fi.qualname}:{norm(n)}', f'{fi.qualname} opens the source file with newline={norm(nl)}: line ends are not translated, so a file with '
+                                f'CRLF line ends gives a different text by path than as an ordinary open text stream', node=n, file=fi.file)
+                        continue
                     col.check(enc in UTF8, 'C12-utf8', f'{fi.qualname}:{norm(n)}',
                               f'file opened with encoding={enc!r}',
                               f'file opened with encoding={enc!r}: non-ASCII documents then depend on the locale',
                               node=n, file=fi.file)
+                # other ways to read a file: pathlib / io / codecs
+                if isinstance(n, ast.Call) and isinstance(n.func, ast.Attribute) and n.func.attr in ('read_text', 'read_bytes') and not (
+                        isinstance(n.func.value, ast.Name) and n.func.value.id in ('self',)):
+                    n_open += 1
+                    if n.func.attr == 'read_bytes':
+                        col.bad('C12-utf8', f'{fi.qualname}:{norm(n)[:50]}', f'{fi.qualname} reads the source file as bytes (`{norm(n)[:50]}`) and decodes them itself: no '
+                                f'universal-newline translation takes place, so a file with CRLF line ends gives a different text by path than the same file passed as an open '
+                                f'text stream or as a string read in text mode - the routes disagree', node=n, file=fi.file)
+                    else:
+                        enc = next((kw.value.value for kw in n.keywords if kw.arg == 'encoding' and isinstance(kw.value, ast.Constant)), None)
+                        if enc is None and n.args and isinstance(n.args[0], ast.Constant):
+                            enc = n.args[0].value
+                        col.check(enc in UTF8, 'C12-utf8', f'{fi.qualname}:{norm(n)[:50]}', f'file read as text with encoding={enc!r}',
+                                  f'file read as text with encoding={enc!r}: non-ASCII documents then depend on the locale', node=n, file=fi.file)
+                if isinstance(n, ast.Call) and isinstance(n.func, ast.Attribute) and n.func.attr == 'open' and isinstance(n.func.value, ast.Name) \
+                        and n.func.value.id in ('io', 'codecs'):
+                    n_open += 1
+                    col.unk('C12-utf8', f'{fi.qualname}:{norm(n)[:50]}', f'{fi.qualname} opens the source with {norm(n.func)}: encoding and newline handling of that call are not '
+                            f'modelled', node=n, file=fi.file)
         col.floor('C12-utf8', 'open() calls on routes', n_open, 1)
     guarded(col, 'C12-utf8', 'open-calls', encodings)
 
